@@ -23,7 +23,7 @@ func init() {
 				"Not decided: that the kernel emits the notification; name-length/batching arithmetic beyond the linear form; histories.",
 			Rule:        "obligations per loop-shape fact, per loop exit edge, per select state, per empty-event return, per requested flag; non-trivial = the construct exists in the reader",
 			Assumptions: []string{"go/types + go/ssa", "types.Sizes of the target for Sizeof(unix.InotifyEvent)", "C15 (flag tables) and C16 (Op.Has) for the meaning of bit tests"},
-			MinObl:      16,
+			MinObl:      14,
 		},
 		Configs: tiered(linuxQuick, linuxAll),
 		Run:     runC01,
